@@ -118,6 +118,22 @@ def fam_d(rng, ident, dup):
     return scn.line("scn", ident, s, extra="nt=1 family=duplicate-replies-%d" % dup)
 
 
+def fam_cancelled_then_close(rng, ident):
+    """the peer cancels calls whose handlers are still running, the transport stops, and only then do the handlers return"""
+    k = 1 + rng.below(3)
+    s = []
+    for i in range(k):
+        s.append(scn.feed_call(30 + i, 500 + i))
+    s.append("waithandlers/%d" % k)
+    victims = [i for i in range(k) if rng.chance(2, 3)] or [0]
+    for i in victims:
+        s.append(scn.feed_cancel(30 + i))
+    s.append("settle")
+    s.append(rng.choice(["close", "readerr/eof", "readerr/op"]))
+    s += ["waitdone", "settle", "sleep/2", "finishall", "settle", "sample/final"]
+    return scn.line("scn", ident, s, extra="nt=1 family=peer-cancelled-then-stop")
+
+
 def fam_stalled_close(rng, ident):
     """Close while the writer is blocked inside the connection's Write (the peer has stopped draining)"""
     s = ["stallw/on", scn.notify(1, nowait=True), "waitinwrite"]
@@ -150,6 +166,8 @@ def explore(ctx):
         for dup in (1, 2, 3):
             for _ in range(2):
                 lines.append(fam_d(rng, "d%d" % n, dup)); n += 1
+        for _ in range({"quick": 12, "thorough": 200, "search": 30}[tier]):
+            lines.append(fam_cancelled_then_close(rng, "p%d" % n)); n += 1
     triples, tie = C.run_both(ctx, "TestVerifScn", lines, go_timeout=1500)
     fams = {}
     for l in lines:
